@@ -9,6 +9,12 @@ TRUST = [
 ]
 
 CONFIG = {
+    "C05": {
+        "level": "exploration",
+        "assumptions": TRUST + ["conflict edits use fresh type names so that every service SDL stays individually valid", "routes of shared non-Node types are last-writer by design and not compared"],
+        "quick": {"tests": [("TestC05", 2500)], "shards": 4, "timeout": 600},
+        "thorough": {"tests": [("TestC05", 12000)], "shards": 16, "timeout": 2400},
+    },
     "C02": {
         "level": "exploration",
         "assumptions": TRUST + ["coverage of client-selected fields is checked dynamically over a saturated store (every plan step fires), by (concrete type, field, coerced arguments)",
